@@ -73,3 +73,36 @@ def response_101(key, extra=(), accept=None, status_line=b"HTTP/1.1 101 Switchin
     for e in extra:
         lines.append(e if isinstance(e, bytes) else e.encode())
     return b"\r\n".join(lines) + b"\r\n\r\n"
+
+
+def numeric_spellings(n):
+    """Spellings of a numeric text field the peer controls (status code, Content-Length, port of a Location), each with its class:
+      'exact'     - the canonical decimal spelling of n
+      'lenient'   - not canonical, but a lenient numeric reader arrives at the value n (sign, zeros, digit separators, Unicode decimals,
+                    trailing blank, a zero fraction or exponent)
+      'ambiguous' - n followed or preceded by a non-digit, or written with characters that are digits to str.isdigit() but not to int():
+                    a reader may take it for n or refuse it
+      'other'     - every numeric reading differs from n: digit strings that merely start with, end with or contain n, a non-zero
+                    fraction, the negative, hex, a blank inside, the empty field, a 40-digit number
+    Returned as [(bytes, class)]; deterministic."""
+    s = str(n)
+    sup = {"0": "\u2070", "1": "\u00b9", "2": "\u00b2", "3": "\u00b3"}
+    groups = [
+        ("exact", [s]),
+        ("lenient", ["+" + s, "0" + s, "0000" + s, (s[0] + "_" + s[1:]) if len(s) > 1 else "0_" + s,
+                     "".join(chr(0x660 + int(c)) for c in s), "".join(chr(0xff10 + int(c)) for c in s), "".join(chr(0x966 + int(c)) for c in s),
+                     s + "\t", s + ".0", s + "e0"]),
+        ("ambiguous", [s + "x", "x" + s, s + ";", s + ",", (s[0] + sup.get(s[1], "\u00b2") + s[2:]) if len(s) > 1 else sup.get(s, "\u00b2"),
+                       "".join(chr(0x2460 + max(0, int(c) - 1)) for c in s), s + "\u00b2", "\u2460" + s[1:], s[:-1] + "\u2081"]),
+        ("other", [s + "0", s + "5", s + s, "9" + s, s[:-1] or "7", s[1:] or "7", s + ".5", "-" + s, "0x" + s, s[0] + " " + s[1:], "", "9" * 40]),
+    ]
+    out, seen = [], set()
+    for cls, items in groups:
+        for t in items:
+            b = t.encode()
+            if b not in seen:
+                seen.add(b)
+                out.append((b, cls))
+    out.append((s.encode() + b"\xff", "ambiguous"))
+    out.append((b"\xff" + s.encode(), "ambiguous"))
+    return out
